@@ -453,11 +453,12 @@ def plan_c03(K, ctx):
         elif "violated" not in e:
             raise K.ToolError("MC_Vocab failed: " + e)
     # (b) everything the enum formatter emits, through both pipelines; (c) the same texts with derived copulas and sugar
-    cfg1 = ("SPECIFICATION Spec\n" + consts(TIER=f'"{ctx.tier}"', SEEDS=16, SEED=ctx.seed) + "INVARIANT RoundTrip\nINVARIANT Emit\nCHECK_DEADLOCK FALSE\n")
-    cfg2 = ("SPECIFICATION Spec\n" + consts(TIER=f'"{ctx.tier}"', SEEDS=16, SEED=ctx.seed) + "INVARIANT Meaning\nINVARIANT Emit\nCHECK_DEADLOCK FALSE\n")
+    # (the design-level invariants RoundTrip / Meaning of these generator modules are checked by C01 / C10; here they only generate)
+    cfg1 = ("SPECIFICATION Spec\n" + consts(TIER=f'"{ctx.tier}"', SEEDS=16, SEED=ctx.seed) + "INVARIANT Emit\nCHECK_DEADLOCK FALSE\n")
+    cfg2 = ("SPECIFICATION Spec\n" + consts(TIER=f'"{ctx.tier}"', SEEDS=16, SEED=ctx.seed) + "INVARIANT Emit\nCHECK_DEADLOCK FALSE\n")
 
     ncfg = ("SPECIFICATION Spec\n" + consts(TIER=f'"{ctx.tier}"', SEEDS=16, SEED=ctx.seed) + "INVARIANT Emit\nCHECK_DEADLOCK FALSE\n")
-    dcfg = ("SPECIFICATION Spec\n" + consts(MAXD=64, LONGN=60) + "INVARIANT Emit\nINVARIANT ModelRoundTrip\nCHECK_DEADLOCK FALSE\n")
+    dcfg = ("SPECIFICATION Spec\n" + consts(MAXD=64, LONGN=60) + "INVARIANT Emit\nCHECK_DEADLOCK FALSE\n")
 
     def to_pipe_v(c):
         c["op"] = "pipe_v"
